@@ -47,6 +47,7 @@ static struct Sched {
     // ForkExec
     bool fork_mode = false; int fork_point = 0; int phase = 0;
     int app_idx = -1;
+    bool fork_window = false, in_prepare = false, window_used = false; int cur_kind = -1;
     int extra_point[MAXT] = {0}; bool extra_parked[MAXT] = {false}; bool extras_released = false;
     volatile int main_futex = 0;
     int max_overlap = 0, blocked_events = 0;
@@ -88,6 +89,8 @@ static int choose(int me) {
         // further parent threads (2..n-1) first run to their park points inside the library; then thread 1 (B) runs up to
         // its fork point; then thread 0 (A, the forker) whenever it can; then everybody else finishes
         auto avail = [&](int i) { return runnable(i) && !(S.extra_parked[i] && !S.extras_released); };
+        // the window between the prepare and the parent handler: the forking thread holds what prepare took; let B run into it once
+        if (S.fork_window && S.in_prepare && !S.window_used && me == 0 && S.cur_kind == SP_LOCK_POST && avail(1)) { S.window_used = true; S.trace.push_back(1); return 1; }
         for (int i = 2; i < S.n && pick < 0 && !S.extras_released; i++)
             if (S.t[i].state == TS_RUNNABLE && !S.extra_parked[i]) { if (S.t[i].points >= S.extra_point[i]) S.extra_parked[i] = true; else pick = i; }
         if (pick < 0) {
@@ -144,6 +147,7 @@ void sched_point(int kind) {
     SimScope harness_scope;
     int me = t_thr;
     S.t[me].points++; S.total_points++;
+    S.cur_kind = kind;
     if (kind == SP_CALL_ENTER) S.t[me].in_lib = true;
     if (kind == SP_CALL_EXIT) S.t[me].in_lib = false;
     int ov = 0; for (int i = 0; i < S.n; i++) if (S.t[i].in_lib) ov++;
@@ -521,7 +525,9 @@ static void *forker_body(void *) {
     // prepare handlers (library code; may take the registry mutex and have to wait for B)
     sim_event("fork");
     G.counters["fork-owner-" + std::to_string(-1)];
+    S.fork_window = op.fork_window; S.in_prepare = true;
     for (size_t k = G.atfork.size(); k-- > 0;) if (G.atfork[k].prepare) { t_in_sut = 1; G.atfork[k].prepare(); t_in_sut = 0; }
+    S.in_prepare = false;
     // a thread that has finished may still be running its (sanitizer) teardown, holding allocator locks the child
     // would inherit: wait until it is really gone before forking
     if (S.t[1].state == TS_DONE) { pthread_join(S.t[1].th, nullptr); S.t[1].state = TS_GONE; }
